@@ -1,6 +1,7 @@
 package mon
 
 import (
+	"fmt"
 	"math/big"
 	"strings"
 	"time"
@@ -184,6 +185,50 @@ func (m *C11) AfterMsg(w *eng.World, st *eng.MsgStep) {
 		if st.Res.OK {
 			m.checkTake(w, st, msg)
 		}
+	case *baskettypes.MsgUpdateDateCriteria:
+		if st.Res.OK {
+			if b := st.Post.BasketByDenom(msg.Denom); b != nil {
+				m.checkStoredCriteria(w, "UpdateDateCriteria", b, msg.NewDateCriteria)
+			}
+		}
+	case *baskettypes.MsgCreate:
+		if st.Res.OK {
+			if resp, ok := st.Res.RespMsg.(*baskettypes.MsgCreateResponse); ok {
+				if b := st.Post.BasketByDenom(resp.BasketDenom); b != nil {
+					m.checkStoredCriteria(w, "basket Create", b, msg.DateCriteria)
+				}
+			}
+		}
+	}
+}
+
+// checkStoredCriteria: the criterion a basket enforces is exactly the one the
+// accepted message states (exactly one variant, nothing left over from before).
+func (m *C11) checkStoredCriteria(w *eng.World, what string, b *basketapi.Basket, want *baskettypes.DateCriteria) {
+	got := b.DateCriteria
+	var gm, wm, gw, ww string
+	var gy, wy uint32
+	if got != nil {
+		if got.MinStartDate != nil {
+			gm = got.MinStartDate.AsTime().String()
+		}
+		if got.StartDateWindow != nil {
+			gw = fmt.Sprintf("%d.%09d", got.StartDateWindow.Seconds, got.StartDateWindow.Nanos)
+		}
+		gy = got.YearsInThePast
+	}
+	if want != nil {
+		switch {
+		case want.MinStartDate != nil:
+			wm = time.Unix(want.MinStartDate.Seconds, int64(want.MinStartDate.Nanos)).UTC().String()
+		case want.StartDateWindow != nil:
+			ww = fmt.Sprintf("%d.%09d", want.StartDateWindow.Seconds, want.StartDateWindow.Nanos)
+		default:
+			wy = want.YearsInThePast
+		}
+	}
+	if gm != wm || gw != ww || gy != wy {
+		w.Violation("C11", "stored-criteria-differs-from-message", "%s accepted with date criteria %v but the basket now enforces %v", what, want, got)
 	}
 }
 
